@@ -4,7 +4,6 @@
 package ice
 
 import (
-	"net"
 	"net/netip"
 )
 
@@ -59,11 +58,7 @@ func NewCandidateServerReflexive(config *CandidateServerReflexiveConfig) (*Candi
 			},
 		},
 	}
-	candidate.setResolvedAddr(&net.UDPAddr{
-		IP:   ipAddr.AsSlice(),
-		Port: config.Port,
-		Zone: ipAddr.Zone(),
-	})
+	candidate.setResolvedAddr(createAddr(networkType, ipAddr, config.Port))
 
 	return candidate, nil
 }
